@@ -130,25 +130,66 @@ def repl_terms(case, obs):
     return P, O
 
 
+def dehist_oracle(cfg, obs):
+    """every generation of a real DE run obeys the one-to-one rule (parents = population before, offspring = infills, slot by slot)"""
+    from harness.core import dec
+    constr = bool(obs["constr"])
+    for G in obs["gens"]:
+        if G["gen"] == 0 or not G["pre"]:
+            continue
+        pre, inf, post = G["pre"], G["infills"], G["post"]
+        if len(inf) != len(pre):
+            return "C02-offspring: generation %d proposes %d offspring for %d members" % (G["gen"], len(inf), len(pre))
+        D = lambda i: obs["data"][str(i)]
+        pX = np.array([dec(D(i)["X"]) for i in pre]); oX = np.array([dec(D(i)["X"]) for i in inf])
+        pF = [dec(D(i)["F"])[0] for i in pre]; oF = [dec(D(i)["F"])[0] for i in inf]
+        pCV = [float.fromhex(D(i)["CV"]) for i in pre]; oCV = [float.fromhex(D(i)["CV"]) for i in inf]
+        pFe = [D(i)["feas"] for i in pre]; oFe = [D(i)["feas"] for i in inf]
+        pos = {i: k for k, i in enumerate(pre)}; pos.update({i: len(pre) + k for k, i in enumerate(inf)})
+        if any(i not in pos for i in post):
+            return "C02-foreign: generation %d: the new population contains an individual that is neither a member nor an offspring" % G["gen"]
+        m = repl_oracle(constr, pX, pF, pCV, pFe, oX, oF, oCV, oFe, [pos[i] for i in post], G["post_rank"], tag="C02-generation-%d" % G["gen"])
+        if m:
+            return m
+    return None
+
+
 class C02(Check):
     ID = "C02"
-    IMPORTS = "From PV Require Import Model.Replace."
+    IMPORTS = ("From PV Require Import Model.Repair Model.Mutate Model.Cross Model.Select Model.Variant Model.Replace "
+               "Model.Dominance Model.RankCrowd Model.Algo.")
     RULE = ("ImprovementReplacement().do(problem, pop, off) (also return_indices / inplace) on parent/offspring populations with grid values (ties in F and CV, "
             "CV = 0 vs tiny positive), offspring equal to own parent / another member / an earlier offspring, unconstrained / mixed / all-feasible / "
-            "all-infeasible; in 30% of the cases the operator object has served an unconstrained / all-feasible population before; survivors identified by object identity; non-trivial = at least one tie, duplicate or feasibility change; distinct by hash")
+            "all-infeasible; in 30% of the cases the operator object has served an unconstrained / all-feasible population before; 8% of the cases are whole DE runs (6 generations by ask / evaluate / tell, mostly constrained, plateau-valued or constant objectives) whose every generation is "
+            "judged slot by slot and compared with the model's de_step; survivors identified by object identity; non-trivial = at least one tie, duplicate or feasibility change; distinct by hash")
     ASSUMPTIONS = ["pymoo's duplicate test (Euclidean distance <= 0) is modelled as equality of decision vectors (differs only under underflow of squared differences)",
                    "CV >= 0 and feasible = (CV <= 0) are taken from pymoo's Individual and used as hypotheses of best_never_worse"]
     QUICK_N = 500
     THOROUGH_N = 8000
 
     def gen(self, n):
+        from harness import hist
         for _ in range(n):
+            if self.rng.random() < 0.08:
+                # whole DE generations (ask / evaluate / tell on the real algorithm object), mostly constrained, with plateau-valued
+                # or constant objectives so that offspring often tie with or exceed every objective value of the population
+                cfg = hist.gen_hist_case(self.rng, algs=("DE",), n_gen=6)
+                cfg["kind"] = "dehist"; cfg["digits"] = self.rng.choice([0, 0, 1, 2])
+                if self.rng.random() < 0.35:
+                    cfg["fscale"] = 0.0          # constant objective: a pure feasibility problem
+                yield cfg
+                continue
             yield gen_repl_case(self.rng)
 
     def run(self, case):
+        if case.get("kind") == "dehist":
+            from harness import hist
+            return hist.run_history(case)
         return run_repl(case)
 
     def oracle(self, case, obs):
+        if case.get("kind") == "dehist":
+            return dehist_oracle(case, obs)
         if not obs["pop_untouched"]:
             return "C02-inplace: the caller's population object was changed although inplace=False"
         n = len(case["pX"])
@@ -173,6 +214,9 @@ class C02(Check):
                            obs["new_ids"], obs["new_ranks"])
 
     def coq(self, case, obs):
+        if case.get("kind") == "dehist":
+            from harness import hist
+            return hist.history_term(case, obs, ("tell",))
         P, O = repl_terms(case, obs)
         c = cbool(case["constr"])
         if "mask" in obs:
@@ -183,12 +227,17 @@ class C02(Check):
             c, P, O, cnl(obs["new_ids"]), cnl(obs["new_ranks"]), len(case["pX"]))
 
     def nontrivial(self, case, obs):
+        if case.get("kind") == "dehist":
+            return len(obs["gens"]) >= 3
         pX, oX = case["pX"], case["oX"]
         dup = any(o in pX for o in oX) or len({tuple(o) for o in oX}) < len(oX)
         ties = len(set(case["pF"] + case["oF"])) < 2 * len(pX)
         return bool(dup or ties or case["mode"] == "mixed")
 
     def classes(self, case, obs):
+        if case.get("kind") == "dehist":
+            return ["DE-generations", "constant-objective" if case.get("fscale") == 0.0 else "objective-digits-%d" % case["digits"],
+                    "constrained" if case["n_ieq"] or case.get("n_eq") else "unconstrained"]
         return [case["mode"], case["api"], "n=%d" % len(case["pX"])] + (["huge-or-infinite-objectives"] if case.get("scales") else []) + (["operator-reused"] if case.get("prime") else [])
 
     def explain(self, case, obs):
